@@ -134,6 +134,10 @@ def run(case, ctx):
         cfg["stable"] = True
     wrap_ga = bool(case.get("cfg", {}).get("group_average"))
     cfg["depth"] = cfg["depth"] if cfg.get("keep_depth") else 1
+    if cfg.get("mid") and cfg["cls"] == "UNet":
+        # the U-Net derives the channel counts of its levels from `depth` and takes only the TYPES from mid_keys: explicit
+        # mid keys must carry `depth` channels (the generator guarantees it; keep it true after the override above)
+        cfg["mid"] = [[t, cfg["depth"]] for t, _ in cfg["mid"]]
     cfg["num_blocks"] = 1
     if cfg["cls"] == "UNet":
         cfg["num_downsamples"] = 1
